@@ -2,7 +2,7 @@ SPECIFICATION FairSpec
 CONSTANTS
   Kinds = {"d2", "aad", "ar", "dc", "adc", "adx"}
   MaxLen = 2
-  Hooks = {"none", "ext"}
+  Hooks = {"hw", "ext"}
   FaultModes = {"ee", "ew", "we", "ww"}
 ACTION_CONSTRAINT StartWhenPolled
 INVARIANT TypeOK
